@@ -66,7 +66,9 @@ class World:
                 else:
                     ops.append(['writeline'] if kind == 'string' else ['comm'])
             callers.append(ops)
-        fault = rng.choice(['none', 'none', 'late-reply', 'garbage', 'silence', 'disconnect', 'disconnect-refuse', 'trailing-extra', 'disconnect-idle'])
+        fault = rng.choice(['none', 'none', 'late-reply', 'garbage', 'silence', 'disconnect', 'disconnect-refuse', 'trailing-extra', 'disconnect-idle', 'noise'])
+        if fault == 'noise' and kind != 'string':
+            fault = 'none'
         scen = {'kind': kind, 'callers': callers, 'delay': rng.choice([0.0, 0.01, 0.3]), 'chunk': rng.choice([None, None, 1, 3]), 'fault': fault,
                 'fault_at': rng.randint(0, 4), 'refuse': rng.choice([0, 1, 3]), 'devseed': rng.randrange(1 << 20)}
         # line terminator of the device (multi-byte terminators may be cut by the chunking: 'eol' = cut inside it)
@@ -144,6 +146,10 @@ class World:
                     if cmd.startswith(b'W'):
                         continue          # writeline: no reply expected
                     reply = (b'R:' + cmd + eolb) if scen['kind'] == 'string' else (b'R' + cmd[1:])
+                    if fault == 'noise' and n == scen['fault_at'] + 1:
+                        # line noise: a complete, terminated line with bytes that can not be decoded in the configured encoding
+                        reply = b'R:\xff\xfe' + cmd + b'\x80' + eolb
+                        dev['noisy'] = dev.get('noisy', 0) + 1
                     if scen.get('hook_rejects') and n == scen['fault_at'] and not dev['dropped']:
                         reply = b'X' + reply[1:]       # a reply the driver's hook does not accept
                         dev['rejected'] = dev.get('rejected', 0) + 1
@@ -419,7 +425,9 @@ class World:
         if s.escaped:
             r.violation('C16/exception-escapes-thread', f'{s.escaped[0][:2]}', dict(case, traceback=s.escaped[0][2]))
             return
-        faulty = scen['fault'] in ('silence', 'disconnect', 'disconnect-refuse', 'late-reply', 'disconnect-idle')
+        faulty = scen['fault'] in ('silence', 'disconnect', 'disconnect-refuse', 'late-reply', 'disconnect-idle', 'noise')
+        if dev.get('noisy'):
+            r.count('replies_with_undecodable_bytes', dev['noisy'])
         cmdtime = cmdtime_final(dev, scen)
         for key, rec_ in sorted(results.items()):
             r.count('calls_checked')
